@@ -138,6 +138,11 @@ def run(ctx):
             oracle(ctx, {"inputs": ins, "rows": [{"input_reaction": r.get("input_reaction"), "reaction": r.get("reaction"), "solved": r.get("solved") is True or r.get("solved") == 1,
                                                     "solved_by": r.get("solved_by") if isinstance(r.get("solved_by"), str) else None} for r in rows], "tables": {}},
                    expect_variant=True)
+    import matrix
+    for run in matrix.runs(ctx):
+        ctx.count("matrix", run["config"][:40])
+        if not run["error"]:
+            oracle(ctx, matrix.as_batch(run), expect_variant=True)
     bs = pipe.corpus_run(ctx)
     gs = c03.gen_run(ctx)
     for b in bs + gs:
